@@ -79,7 +79,7 @@ def units(tier, seed):
     groups: dict[str, list] = {}
     for p in progs:
         groups.setdefault(p["base"], []).append(p)
-    target = 2500 if tier == "quick" else 12000
+    target = 1600 if tier == "quick" else 4500
     out, cur, cost = [], [], 0
     # simplest first; groups stay together (per_obs variants are compared with each other)
     for base, ps in groups.items():
